@@ -116,7 +116,11 @@ func randomDistUpdate(c *fw.Case, e *distEnv, r *rand.Rand) string {
 
 func runDistScenario(c *fw.Case, prop string) {
 	e := newDistKeys()
-	sds := gen.SubDistributors(c.R, distOpts(e, true))
+	do := distOpts(e, true)
+	// every eighth scenario works in whole numbers only (see C14)
+	do.NiceShares = c.Index%8 == 7
+	e.wholeAmounts = do.NiceShares
+	sds := gen.SubDistributors(c.R, do)
 	if sds == nil {
 		c.Describe("no-valid-config")
 		return
@@ -152,6 +156,7 @@ func runDistScenario(c *fw.Case, prop string) {
 			}
 		}
 		twin = newDistKeys()
+		twin.wholeAmounts = e.wholeAmounts
 		if err := twin.start(perm, nil); err != nil {
 			c.Inconclusive("twin start: %v", err)
 			return
